@@ -27,7 +27,7 @@ func init() {
 		}
 		var sw *ast.SwitchStmt
 		for _, st := range fd.Body.List {
-			if s, ok := st.(*ast.SwitchStmt); ok && s.Tag != nil && printNode(fset, s.Tag) == "op" {
+			if s, ok := st.(*ast.SwitchStmt); ok && s.Tag != nil && promPrintNode(fset, s.Tag) == "op" {
 				sw = s
 			}
 		}
@@ -49,7 +49,7 @@ func init() {
 				return "", fmt.Errorf("getMatcherClause: case is not a literal")
 			}
 			rs, ok := cc.Body[0].(*ast.ReturnStmt)
-			if !ok || len(rs.Results) != 2 || printNode(fset, rs.Results[1]) != "nil" {
+			if !ok || len(rs.Results) != 2 || promPrintNode(fset, rs.Results[1]) != "nil" {
 				return "", fmt.Errorf("getMatcherClause: case %q does not return (clause, nil)", op)
 			}
 			call, ok := rs.Results[0].(*ast.CallExpr)
@@ -61,7 +61,7 @@ func init() {
 				return "", fmt.Errorf("getMatcherClause: case %q: unknown comparison", op)
 			}
 			c := opc{op: op, fn: cmp[fn]}
-			a0, a1 := printNode(fset, call.Args[0]), printNode(fset, call.Args[1])
+			a0, a1 := promPrintNode(fset, call.Args[0]), promPrintNode(fset, call.Args[1])
 			switch {
 			case a0 == "field" && a1 == "val":
 			case strings.HasPrefix(a0, "sql.NewCustomCol(") && strings.Contains(a0, `fmt.Sprintf("match(%s, %s)", strField, strVal)`) && a1 == `sql.NewRawObject("1")`:
@@ -79,10 +79,10 @@ func init() {
 		var nameSw *ast.SwitchStmt
 		var loopBody []ast.Stmt
 		ast.Inspect(fd.Body, func(n ast.Node) bool {
-			if rs, ok := n.(*ast.RangeStmt); ok && printNode(fset, rs.X) == "s.Selectors" {
+			if rs, ok := n.(*ast.RangeStmt); ok && promPrintNode(fset, rs.X) == "s.Selectors" {
 				loopBody = rs.Body.List
 			}
-			if s, ok := n.(*ast.SwitchStmt); ok && s.Tag != nil && printNode(fset, s.Tag) == "selector.Name" {
+			if s, ok := n.(*ast.SwitchStmt); ok && s.Tag != nil && promPrintNode(fset, s.Tag) == "selector.Name" {
 				nameSw = s
 			}
 			return true
@@ -120,11 +120,11 @@ func init() {
 							}
 						}
 					case *ast.CallExpr:
-						switch printNode(fset, x.Fun) {
+						switch promPrintNode(fset, x.Fun) {
 						case "s.getMatcherClause":
 							nCalls++
-							if len(x.Args) == 3 && printNode(fset, x.Args[1]) == "selector.Op" && printNode(fset, x.Args[2]) == "sql.NewStringVal(_str)" {
-								if c, ok := x.Args[0].(*ast.CallExpr); ok && printNode(fset, c.Fun) == "sql.NewRawObject" && len(c.Args) == 1 {
+							if len(x.Args) == 3 && promPrintNode(fset, x.Args[1]) == "selector.Op" && promPrintNode(fset, x.Args[2]) == "sql.NewStringVal(_str)" {
+								if c, ok := x.Args[0].(*ast.CallExpr); ok && promPrintNode(fset, c.Fun) == "sql.NewRawObject" && len(c.Args) == 1 {
 									if s, ok := strLit(c.Args[0]); ok {
 										field = s
 									} else if id, ok := c.Args[0].(*ast.Ident); ok {
@@ -133,7 +133,7 @@ func init() {
 								}
 							}
 						case "s.getArrayExists":
-							if printNode(fset, x) == `s.getArrayExists(cond, sql.NewRawObject("sample_types_units"))` {
+							if promPrintNode(fset, x) == `s.getArrayExists(cond, sql.NewRawObject("sample_types_units"))` {
 								p.arr = true
 							}
 						}
@@ -149,7 +149,7 @@ func init() {
 				// the clause must be  sql.Eq(arrayExists(...), 1)
 				found := false
 				for _, bs := range cc.Body {
-					if printNode(fset, bs) == `clause = sql.Eq(s.getArrayExists(cond, sql.NewRawObject("sample_types_units")), sql.NewIntVal(1))` {
+					if promPrintNode(fset, bs) == `clause = sql.Eq(s.getArrayExists(cond, sql.NewRawObject("sample_types_units")), sql.NewIntVal(1))` {
 						found = true
 					}
 				}
